@@ -9,11 +9,11 @@ HOOKS = {
 }
 
 ENGINES_DOC = [
-    {"name": "spec", "path": "spec/", "serves_properties": ["C12"],
+    {"name": "spec", "path": "spec/", "serves_properties": ["C12", "C13", "C15", "C16"],
      "kind_free_text": "TLA+ modules (single source of truth) checked with TLC"},
-    {"name": "harness", "path": "harness/", "serves_properties": ["C12"],
+    {"name": "harness", "path": "harness/", "serves_properties": ["C12", "C13", "C15", "C16"],
      "kind_free_text": "Rust conformance harness: replays TLC-generated behaviours on the real code, records traces/rows for TLC to judge"},
-    {"name": "orchestrator", "path": "bin/check", "serves_properties": ["C12"],
+    {"name": "orchestrator", "path": "bin/check", "serves_properties": ["C12", "C13", "C15", "C16"],
      "kind_free_text": "python3 driver: build, TLC, replay/validation, evidence, exit code"},
 ]
 
@@ -27,8 +27,32 @@ CHECKS = {
     },
 }
 
+CHECKS.update({
+    "C13": {
+        "engine": "spec",
+        "text": "ScpiStatus (error hook = ESR class bit + queue push; SYST:ERR[:NEXT]?/COUN?/ALL?, *ESR?, *OPC, *CLS) is model-checked on bounded projections; every (state, message) edge of the projections (6 handler-raised errors, 4 kinds of genuinely invalid messages, Vec and 2-slot queues) is executed on a real device wired as the minimal example, and seeded random histories of 1-3 unit messages (failures inside the same message as the queries) are validated line by line by TLC.",
+        "design_ref": "DESIGN.md 3 C13",
+        "note": "Exhaustive part bounded to queue length <= 2 (3 thorough) and representative errors; the wording of error messages is compared with the library's own get_message(), only `0,\"No error\"` is fixed. SYST:ERR:ALL? may answer full items or bare codes.",
+        "technique": "TLA+ model checking (TLC) + edge replay into the implementation + trace validation",
+    },
+    "C15": {
+        "engine": "spec",
+        "text": "TLC checks the declarative latch (ghost of filtered transitions since last read/clear) against the register update rule on the MCStatus projection; all reachable (state, command/device-event) edges over bit pairs {b,15} are executed on the real EventRegister and STATus tree for every bit position b=0..14 and both register sets; random 16-bit histories are validated by TraceStatus.",
+        "design_ref": "DESIGN.md 3 C15",
+        "note": "Exhaustive over 2 model bits per register set (3 in thorough) rotated over all positions; full 16-bit interleavings only in recorded traces.",
+        "technique": "TLA+ model checking (TLC) + edge replay into the implementation + trace validation",
+    },
+    "C16": {
+        "engine": "spec",
+        "text": "The 488.2 status byte composition and the common commands are specified in ScpiStatus; TLC checks the STB shape invariants and emits every (state, command, mav) edge of the summary projections (all 32 SRE subsets of bits 2,3,4,5,7 x ESB x queue x register summary x MAV), each executed on the real device; out-of-range *ESE/*SRE writes and random full-width histories are validated as traces.",
+        "design_ref": "DESIGN.md 3 C16",
+        "note": "STB bits 3/7 are required only where condition&enable and event&enable agree (488.2 vs the library's documented reading; the property does not choose). *OPC may or may not queue -800.",
+        "technique": "TLA+ model checking (TLC) + edge replay into the implementation + trace validation",
+    },
+})
+
 NOT_APPLICABLE = [
     {"property_id": p, "reason": "check under construction in this round (see DESIGN.md 6, construction order); not yet claimed"}
     for p in ["C01", "C02", "C03", "C04", "C05", "C06", "C07", "C08", "C09", "C10", "C11",
-              "C13", "C14", "C15", "C16", "C17", "C18", "C19", "C20"]
+              "C14", "C17", "C18", "C19", "C20"]
 ]
